@@ -949,11 +949,15 @@ func guardedByNilTestOf(st *ssa.Store) bool {
 	if !ok || bo.Op != token.EQL {
 		return false
 	}
-	c, ok := bo.Y.(*ssa.Const)
+	x, y := bo.X, bo.Y
+	if c, ok := x.(*ssa.Const); ok && c.IsNil() {
+		x, y = y, x // nil == *addr
+	}
+	c, ok := y.(*ssa.Const)
 	if !ok || !c.IsNil() {
 		return false
 	}
-	ld, ok := bo.X.(*ssa.UnOp)
+	ld, ok := x.(*ssa.UnOp)
 	if !ok || ld.Op != token.MUL {
 		return false
 	}
